@@ -25,6 +25,7 @@ CONSTANTS
   AdvMsgs <- AdvSet
   MaxAdv = 2
   Bridgers = {}
+  MaxNow = 0
   MaxHandles = 2
   MaxCtr = 1
 VIEW View
